@@ -5,7 +5,9 @@ From ID Require Export Model.FsStore.
 
 Inductive err :=
   | EEntryIsEmpty | EClosed | EReadOnly | EInvalidNamespace | EBadSignature | EFuture
-  | EInvalidEmpty | ENewerExists | EStore.
+  | EInvalidEmpty | ENewerExists | EStore
+  | EDecode    (* the bytes do not decode to a value at all *)
+  | EPanic.    (* reported by the harness when the implementation panicked; no model ever answers this *)
 Inductive result := Ok (removed : N) | Err (e : err).
 
 (** an entry as it arrives from a peer: content + the verdict of signature verification
